@@ -44,3 +44,26 @@ func TestDebugClone(t *testing.T) {
 		fmt.Println(l)
 	}
 }
+
+func TestDebugReplaySKeep(t *testing.T) {
+	var p SProgram
+	if err := loadCaseFile(os.Getenv("DBG_FILE"), &p); err != nil {
+		t.Fatal(err)
+	}
+	x, f, err := RunSProgram(p)
+	if err != nil {
+		t.Fatal(err)
+	}
+	fmt.Println("FAIL:", f)
+	for _, l := range x.Trace {
+		fmt.Println(l)
+	}
+	ents, _ := os.ReadDir(x.St.Base)
+	for _, e := range ents {
+		if len(e.Name()) > 10 && e.Name()[len(e.Name())-10:] == "-agent.log" {
+			b, _ := os.ReadFile(x.St.Base + "/" + e.Name())
+			fmt.Printf("==== %s\n%s\n", e.Name(), tailStr(string(b), 2500))
+		}
+	}
+	x.Destroy()
+}
